@@ -49,6 +49,20 @@ func NormFunc(f string) string {
 	if m := closureRe.FindStringSubmatch(f); m != nil {
 		f = m[1]
 	}
+	// bodies of range-over-func loops are named after the inlined iterator chain:
+	// pkg.F.(*Vars).All.(*OrderedMap).AllFromFront -> pkg.F
+	start := strings.LastIndex(f, "/") + 1
+	if d := strings.Index(f[start:], "."); d >= 0 {
+		start += d + 1
+		if start < len(f) && f[start] == '(' {
+			if c := strings.Index(f[start:], ")"); c >= 0 {
+				start += c + 1
+			}
+		}
+		if k := strings.Index(f[start:], ".("); k >= 0 {
+			f = f[:start+k]
+		}
+	}
 	return f
 }
 
